@@ -2,7 +2,7 @@
 # regenerates the seeded-change table of DESIGN.md (between the SEEDTABLE markers) from seeded/*/meta.json
 import json, glob, os, re
 rows = []
-for d in sorted(glob.glob('/verif/seeded/*')):
+for d in sorted(glob.glob('/verif/seeded/C*-*')):
     m = json.load(open(d + '/meta.json'))
     name = os.path.basename(d)
     res = m.get('check_result', '')
